@@ -228,6 +228,17 @@ class Runner:
     self.base = tempfile.mkdtemp(prefix='h_', dir=SCRATCH)
     self.d = os.path.join(self.base, 'ckpts')
     os.makedirs(self.d)   # the Orbax back-end needs an existing directory
+    # legal but non-normalised spellings of the same directory
+    sp = case.get('dir_spelling', 'plain')
+    if sp == 'dot':
+      self.d = os.path.join(self.base, '.', 'ckpts')
+    elif sp == 'double':
+      self.d = self.base + '//ckpts'
+    elif sp == 'trailing':
+      self.d = self.d + '/'
+    elif sp == 'dotdot':
+      os.makedirs(os.path.join(self.base, 'x'))
+      self.d = os.path.join(self.base, 'x', '..', 'ckpts')
     self.m = Model(case['backend'], case['prefix'], case['float_steps'])
     self.marker = 0
     self.forks = 0
@@ -279,7 +290,8 @@ class Runner:
     return self.child(
         op_save(d or self.d, m.backend, m.prefix, stepobj, self.marker, keep,
                 every, overwrite),
-        watch_dir=os.path.dirname(d or self.d), crash_at=crash_at), self.marker
+        watch_dir=os.path.dirname(os.path.normpath(d or self.d)),
+        crash_at=crash_at), self.marker
 
 
 def known_class(m, step, overwrite, phase):
@@ -576,6 +588,8 @@ def history_strategy(max_crash=30, min_ops=3, max_ops=8):
       'backend': st.sampled_from(['orbax', 'legacy', 'orbax']),
       'prefix': st.sampled_from(PREFIXES),
       'float_steps': st.sampled_from([False, False, True]),
+      'dir_spelling': st.sampled_from(['plain', 'plain', 'dot', 'double',
+                                       'trailing', 'dotdot']),
       'start': st.integers(-3, 3),
       'ops': st.lists(op_strategy(max_crash), min_size=min_ops,
                       max_size=max_ops),
@@ -586,7 +600,8 @@ def history_strategy(max_crash=30, min_ops=3, max_ops=8):
         thorough=3000, quick_shards=16, thorough_shards=16, shrink=False,
         rule='histories of 3-8 save_checkpoint calls (int/float/negative/'
         'exponent steps, keep 1-3, keep_every_n, overwrite, 4 prefixes, both '
-        'back-ends), each optionally killed before its k-th file-system '
+        'back-ends, plain or non-normalised spelling of the directory: ./, //, '
+        'trailing /, x/../), each optionally killed before its k-th file-system '
         'event (k drawn 1-30) and followed by a torn temporary; after every '
         'call the directory, available_steps, latest_checkpoint, restore of '
         'latest and of every retained step are compared with a reference '
